@@ -730,8 +730,12 @@ pub fn refdecode(bytes: &[u8]) -> RefMsg {
             b.text("destination", nchars, &[Prop::C14]);
             let left = b.remaining();
             if nchars == 20 && left >= 1 {
-                // the full layout: DTE is bit 422
-                b.enumf("dte", 1, EnumKind::Dte);
+                // the full layout: DTE is bit 422 (C12 for the mapping, C14 because its presence
+                // depends on the length)
+                let st = b.pos;
+                let v = b.raw(1);
+                let r = enum_render(EnumKind::Dte, v);
+                b.push("dte", st, 1, Hint::Plain, vec![(Prop::C12, Pat::Render(vec![r.clone()])), (Prop::C14, Pat::Render(vec![r]))]);
                 if b.remaining() >= 1 {
                     b.spare(1);
                 }
